@@ -1197,7 +1197,7 @@ def gen_families():
                 d = D._DESCR_ATTR_VAL_RISCV.get(t)
                 rv[t] = sorted(d) if isinstance(d, dict) else []
         return dynobj.gen_attrs_file(rng, av, rv)
-    return [('versions', ['-V', '-s', '-d', '-e'], dynobj.gen_versions), ('notes', ['-n'], dynobj.gen_notes_file),
+    return [('versions', ['-V', '-s', '-d', '-e', '-r'], dynobj.gen_versions), ('notes', ['-n'], dynobj.gen_notes_file),
             ('attrs', ['-A'], attrs),
             ('headers', ['-h', '-e'], headers),
             ('symtab', ['-s', '-e'], dynobj.gen_symtab_file), ('relocs', ['-r'], relocs),
